@@ -239,6 +239,11 @@ def scenarios(tier):
     # output large enough to migrate through the buffer representations while partly sent
     S.append(("P2[migrating outbuf,slow client]", dict(pre=two, workers=1, lookahead=0, window=3000, drains=[4000, None], adj=dict(outbuf_overflow=12000),
               programs={"/r1": dict(body=["a" * 5000, "b" * 5000, "c" * 5000, "d" * 5000], cl=True)}), 1))
+    # the last request of the pipeline is refused by the parser: its error response is one of the
+    # responses that must arrive, whole and in order, before the connection is closed
+    bad = b"GET /r2 HTTP/1.1\r\nHost: h\r\nContent-Length: x\r\nX-Id: 2\r\n\r\n"
+    S.append(("PX[GET,malformed]", dict(pre=(req(1) + bad).decode("latin-1"), workers=1, lookahead=1), 1 if q else 2))
+    S.append(("PX[malformed alone,via I/O thread]", dict(pre="", segments=[(bad.decode("latin-1"), None)], workers=1, lookahead=0), 2))
     if not q:
         S.append(("P2[poll2]", dict(pre=two, workers=1, lookahead=0, poll2=True), 2))
         S.append(("P2[buffers monitored]", dict(pre=two, workers=1, lookahead=0, monitor_buffers=True, send_alts=["one"]), 2))
